@@ -23,8 +23,10 @@ Fixpoint dset (k : str) (v : json) (d : dict) : dict :=
   | [] => [(k, v)]
   | (k', v') :: r => if str_eqb k' k then (k, v) :: r else (k', v') :: dset k v r
   end.
+(* del d[k]: keys of a Python dict are unique; removing every entry with the key is the same operation on such
+   lists and makes "k is absent afterwards" hold for any association list *)
 Fixpoint ddel (k : str) (d : dict) : dict :=
-  match d with [] => [] | (k', v) :: r => if str_eqb k' k then r else (k', v) :: ddel k r end.
+  match d with [] => [] | (k', v) :: r => if str_eqb k' k then ddel k r else (k', v) :: ddel k r end.
 Definition dkeys (d : dict) : list str := map fst d.
 
 (* structural equality (json.dumps text equality for our values) *)
